@@ -147,6 +147,15 @@ func Track(p interface{}) {}
 
 func HeldLocks() int { return 0 }
 
+// SharedWrites: writes to process-wide state observed so far (symbolic engine only).
+func SharedWrites() int { return 0 }
+
+// WriteLocked: some tracked mutex is write-held (symbolic engine only; natively true, the question cannot be asked).
+func WriteLocked() bool { return true }
+
+// ReadOrWriteLocked: some tracked mutex is held in either mode.
+func ReadOrWriteLocked() bool { return true }
+
 // RunReplay runs harness h natively and prints the outcome in a fixed format.
 func RunReplay(harnesses map[string]func()) (outcome string) {
 	name := HarnessName()
